@@ -7,6 +7,7 @@
 
 #pragma once
 
+#include <algorithm>
 #include <atomic>
 #include <chrono>
 #include <condition_variable>
@@ -126,7 +127,8 @@ public:
 public:
   /// Constructs the thread pool.
   ///
-  /// @param initialSize       Minimum number of threads (always maintained).
+  /// @param initialSize       Minimum number of threads (always maintained);
+  /// clamped to maxSize.
   /// @param maxSize           Maximum number of threads (hard limit).
   /// @param idleTimeout       Duration after which idle threads beyond
   /// initial count will exit.
@@ -142,7 +144,7 @@ public:
              std::size_t maxQueueSize = 1024,
              std::function<void(std::exception_ptr)> onTaskError = nullptr,
              ShutdownMode shutdownMode = ShutdownMode::IMMEDIATE)
-      : _initialSize(initialSize), _maxSize(maxSize), _idleTimeout(idleTimeout),
+      : _initialSize(std::min(initialSize, maxSize)), _maxSize(maxSize), _idleTimeout(idleTimeout),
         _maxQueueSize(maxQueueSize), _shutdown(false), _activeThreads(0), _busyThreads(0),
         _onTaskError(std::move(onTaskError)), _shutdownMode(shutdownMode)
   {
